@@ -135,7 +135,51 @@ fn ev_strategy() -> impl Strategy<Value = Ev> {
     ]
 }
 
+/// Scripts shaped like the repository's `concurrent_elections_never_fork_the_committed_log`
+/// test: a race-free election + seed commit, then rounds in which a challenger's election
+/// timer is primed and, in one un-quiesced burst, fresh requests, the leader's heartbeat pumps
+/// and the challenger's candidacy overlap; each round settles with heartbeat pumps of everybody.
+fn raft_race_strategy() -> impl Strategy<Value = RaftCase> {
+    (
+        1usize..=4,
+        proptest::collection::vec((1u8..N as u8, proptest::collection::vec(0u8..5, 5), 1usize..=3), 1..=6),
+        prop_oneof![
+            proptest::collection::vec(any::<u8>(), 0..256),
+            proptest::collection::vec(any::<u8>(), 256..4096),
+        ],
+    )
+        .prop_map(|(seed_pumps, rounds, tape)| {
+            let mut script = vec![Ev::Election(0), Ev::Barrier, Ev::Request(0)];
+            for _ in 0..seed_pumps {
+                script.push(Ev::Heartbeat(0));
+                script.push(Ev::Barrier);
+            }
+            for (ch, order, settle) in rounds {
+                script.push(Ev::Election(ch));
+                // the burst, in a generated order
+                let burst = [Ev::Request(0), Ev::Request(ch), Ev::Heartbeat(0), Ev::Election(ch), Ev::Heartbeat(0)];
+                let mut idx: Vec<usize> = (0..5).collect();
+                idx.sort_by_key(|i| (order[*i], *i));
+                for i in idx {
+                    script.push(burst[i]);
+                }
+                script.push(Ev::Barrier);
+                for _ in 0..settle {
+                    for m in 0..N as u8 {
+                        script.push(Ev::Heartbeat(m));
+                    }
+                    script.push(Ev::Barrier);
+                }
+            }
+            RaftCase { script, tape }
+        })
+}
+
 fn raft_strategy() -> impl Strategy<Value = RaftCase> {
+    prop_oneof![raft_random_strategy(), raft_race_strategy()]
+}
+
+fn raft_random_strategy() -> impl Strategy<Value = RaftCase> {
     (
         // an optional race-free prefix that gets a leader elected and an entry committed, so that
         // later candidates have something to be behind (same idea as the repository's tests)
@@ -500,6 +544,9 @@ pub fn run(ctx: &mut Ctx) {
         check_agreement(&committed, &c.script)
     });
 
+    if crate::util::violated(ctx) {
+        return;
+    }
     let (ic, (isend, iout)) = &index;
     let mut icases = vec![];
     for n in 1..=tier.pick(5, 6) {
